@@ -806,8 +806,9 @@ def write_layouts(chk, root):
         kinds = []
         for k in range(n):
             r = rng.random()
-            kinds.append('new' if r < 0.35 else 'old' if r < 0.6 else 'sym' if r < 0.72 else 'hard' if r < 0.78 else 'ext' if r < 0.84 else
-                         'extmissing' if r < 0.9 else 'dir' if r < 0.95 else 'full')
+            # mostly layouts that can be written: a link between two targets, a directory or a full device makes the whole run fail
+            kinds.append('new' if r < 0.40 else 'old' if r < 0.72 else 'ext' if r < 0.80 else 'extmissing' if r < 0.87 else
+                         'sym' if r < 0.92 else 'hard' if r < 0.94 else 'dir' if r < 0.97 else 'full')
         plain = [k for k in range(n) if kinds[k] in ('new', 'old', 'dir')]
         spec = []            # per target: (kind, other target it links to)
         for k in range(n):
